@@ -29,7 +29,7 @@ import pexpect
 from pexpect import utils as putils
 
 PROPERTY = 'C13'
-RULE = ('split: Hypothesis-generated argument lists (1-5 non-empty args over letters, space, tab, newline, both '
+RULE = ('[launch probes include a bare command name that only the PATH of the env argument leads to, as string / argument list / run()] split: Hypothesis-generated argument lists (1-5 non-empty args over letters, space, tab, newline, both '
         'quotes, backslash, non-ASCII incl. Unicode white space) rendered with a per-segment choice of backslash / '
         'single-quote / double-quote protection, joined by 1-3 white-space characters, optional leading/trailing '
         'white space; oracle split_command_line(rendered) == args.  which: generated PATH layouts in a temp dir vs '
